@@ -26,6 +26,7 @@ def run(ctx):
     lib_kind.lib_ts_readonly(ctx, P)
     lib_py.immutable_treeseq(ctx, py)
     lib_py.base_class_attrs(ctx, py)
+    lib_kind.py_unknown_time(ctx, py)
     lib_module.format_types(ctx, P, only=ms)
     lib_module.parsed_used(ctx, P, only=ms)
     lib_py.validate_before_store(ctx, py)
